@@ -71,6 +71,25 @@ def tryFromList (l : List CharSet) : Except Err CharPartition :=
 def push (p : CharPartition) (start stop : Nat) : CharPartition :=
   ⟨p.list ++ [⟨start, stop⟩], if start ≤ p.compWitness then stop + 1 else p.compWitness⟩
 
+/-- `push` in a build with `debug_assert!` enabled (dev profile): `none` = one of the two
+    assertions of `push` fails (character_sets.rs:565-566) -/
+def pushChecked (p : CharPartition) (start stop : Nat) : Option CharPartition :=
+  if ¬ (start ≤ stop ∧ stop ≤ MAX_CHAR) then none
+  else
+    match p.list.getLast? with
+    | none => some (p.push start stop)
+    | some last => if start > last.stop then some (p.push start stop) else none
+
+/-- `new()` followed by a sequence of `push`es, with the debug assertions on -/
+def pushSeqChecked : CharPartition → List CharSet → Option CharPartition
+  | p, [] => some p
+  | p, c :: rest =>
+    match p.pushChecked c.start c.stop with
+    | none => none
+    | some q => pushSeqChecked q rest
+
+def isEmpty (p : CharPartition) : Bool := p.list.isEmpty
+
 def get (p : CharPartition) (i : Nat) : Nat × Nat :=
   match p.list[i]? with
   | some r => (r.start, r.stop)
@@ -146,6 +165,18 @@ def intervalCover (p : CharPartition) (set : CharSet) : CoverResult :=
   else
     let nextA := p.startOf (i + 1)
     if b < nextA then .disjointFromAll else .overlaps
+
+/-- `interval_cover` in a build with `debug_assert!` enabled (dev profile): `none` = the
+    assertion `a <= b && b <= MAX_CHAR` (line 914) or `i == 0` (line 920) fails.
+    Props/C11 `interval_cover_no_assert`: never `none` for a WF partition and a WF set. -/
+def intervalCoverChecked (p : CharPartition) (set : CharSet) : Option CoverResult :=
+  let a := set.start
+  let b := set.stop
+  if ¬ (a ≤ b ∧ b ≤ MAX_CHAR) then none
+  else
+    let i := coverSearch p.list a 0 p.len
+    let (ai, _) := p.get i
+    if a < ai ∧ i ≠ 0 then none else some (p.intervalCover set)
 
 def classOfSet (p : CharPartition) (s : CharSet) : Except Err ClassId :=
   match p.intervalCover s with
